@@ -31,7 +31,9 @@ LEAN_MODULES = ['Proofs.C10']
 REQUIRED = ['C10.digitize_spec', 'C10.digitize_out_of_range', 'C10.exactly_one_bin', 'C10.hht_dense_eq_spec',
             'C10.hht_sparse_in_shape', 'C10.hht_sparse_one_per_sample', 'C10.hht_sparse_eq_dense', 'C10.hht1d_eq_spec', 'C10.hht_marginal', 'C10.hht_total',
             'C10.energy_is_square', 'C10.hht_below_range_pinned',
-            'C10.digitize_shared_with_phase_binning']
+            'C10.digitize_shared_with_phase_binning',
+            # out of range = no bin index at all (no wrap-around to the last bin, no clamp to the first); first edge left-closed
+            'C10.out_of_range_no_bin', 'C10.out_of_range_contributes_nowhere']
 TRUSTED = ['np.digitize / scipy.sparse.coo_matrix(...).toarray() are modelled by what they do to indices (count of edges <= v; '
            'scatter-add with accumulating duplicates); the digitize model is compared with the real np.digitize on every run (stream digitize)',
            'bin edges are produced by the real define_hist_bins / define_hist_bins_from_data (linspace, log, exp are library numerics) '
